@@ -37,3 +37,5 @@ w('C02', 'fixed_fold_single_rounding', 'PRINT .1 / (-2.5#); 1.1754944E-38 ^ .5#\
 w('C02', 'fixed_fold_unary_clamp', 'PRINT -3.4028235E+38; (-1D+308) + 0#\nPRINT -(-32767 - 1)\n')
 w('C02', 'fixed_fold_negative_zero', 'PRINT 0& / (-.5#)\n')
 w('C01', 'fixed_integer_power_hang', 'PRINT 2 ^ 3\nPRINT 2147483647 ^ 2147483647\n', {'prints': ' 8 \r\n', 'outcome': 'INVALID_CELL_VALUE'})
+w('C01', 'fixed_condition_nonzero', 'IF .3 THEN PRINT "t" ELSE PRINT "f"\nIF 100000 THEN PRINT "t"\nx% = 5: c% = 0\nDO\nc% = c% + 1\nLOOP WHILE x% - c%\nPRINT c%\nc# = 3\nDO\nc# = c# - 1\nLOOP UNTIL c# - 1\nPRINT c#\n', {'prints': 't\r\nt\r\n 5 \r\n 2 \r\n'})
+w('C01', 'fixed_restore_plain', 'READ a$: RESTORE: READ b$: PRINT a$; b$\nDATA x\nfoo: DATA y\n', {'prints': 'xx\r\n'})
